@@ -184,6 +184,17 @@ Example c19_misfit_report :
   = ([], Some (mkDoctor None None (lit "http://127.0.0.1:9/v1/responses") None false None [] false false None)).
 Proof. exact misfit_doctor. Qed.
 
+(* Process output: what the authority prints at start-up besides its address (stderr of `ripd`; authority.log when `rip`
+   spawned it) - the warning about an unusable RIP_OPENRESPONSES_TOOL_CHOICE - is a function of public variables. *)
+Theorem c19_startup_output_noninterference : forall w1 w2 : world,
+  low_world w1 = low_world w2 -> startup_warnings (w_env w1) = startup_warnings (w_env w2).
+Proof. exact startup_output_noninterference. Qed.
+Print Assumptions c19_startup_output_noninterference.
+Example c19_startup_warning_example :
+  startup_warnings [(E_ENDPOINT, lit "localhost/v1/responses"); (E_API_KEY, lit "sk-AAAA"); (E_TOOL_CHOICE, lit "bogus")]
+  = [lit "invalid RIP_OPENRESPONSES_TOOL_CHOICE=""bogus"": unsupported value (expected auto|none|required|function:<name>|json:<tool_choice_json>); defaulting to auto"].
+Proof. exact startup_warning_example. Qed.
+
 (* Non-vacuity: two worlds with different keys / header values / env values have the same low
    projection; in both the secret DOES leave the process — in the outgoing request only. *)
 Example c19_example_low_equal :
